@@ -35,7 +35,9 @@ package main
 //@   ensures[response-or-error] result1 == nil ==> result0 != nil
 //@   ensures[one-request] result1 == nil ==> httpDoCalls == old(httpDoCalls) + 1 && !httpDoFailed
 //@   ensures[at-most-one-request] httpDoCalls <= old(httpDoCalls) + 1
-//@   modifies httpDoCalls, httpDoFailed
+//@   ensures[the-response] result1 == nil ==> result0 == lastHTTPResp && result0.Body != nil
+//@   ensures[error-means-not-delivered] result1 != nil ==> httpDoCalls == old(httpDoCalls) || httpDoFailed
+//@   modifies httpDoCalls, httpDoFailed, lastHTTPResp
 //@   loop 0
 //@     invariant httpDoCalls == old(httpDoCalls)
 
@@ -45,7 +47,9 @@ package main
 //@   ensures[response-or-error] result1 == nil ==> result0 != nil
 //@   ensures[one-request] result1 == nil ==> httpDoCalls == old(httpDoCalls) + 1 && !httpDoFailed
 //@   ensures[at-most-one-request] httpDoCalls <= old(httpDoCalls) + 1
-//@   modifies httpDoCalls, httpDoFailed
+//@   ensures[the-response] result1 == nil ==> result0 == lastHTTPResp && result0.Body != nil
+//@   ensures[error-means-not-delivered] result1 != nil ==> httpDoCalls == old(httpDoCalls) || httpDoFailed
+//@   modifies httpDoCalls, httpDoFailed, lastHTTPResp
 //@   loop 0
 //@     invariant httpDoCalls == old(httpDoCalls)
 
@@ -53,3 +57,23 @@ package main
 // fields of a library struct, which the engine reads as arbitrary values (every read a new one), so
 // "nil iff status in [200,300)" cannot be stated and resp.Body.Close() yields an undischargeable
 // nil-interface obligation. See ENGINE GAPS in NOTES.md (the intended contract is kept there).
+
+
+// The destination accepted the message <==> one request went out, the transport reported no error
+// and the status is 2xx (POST) / exactly 200 (GET: stricter than the property, on the safe side).
+// (http.Response is ordinary memory: StatusCode is the field the transport filled in; reading and
+// closing the body do not change it - assumed, io.Copy / Close are benign.)
+//@ immutable net/http.Response.StatusCode
+//@ func (p *PostPublisher) Publish(addr string, msg []byte) error
+//@   props C20
+//@   requires[client-initialised] httpclient != nil && contentType != nil
+//@   ensures[nil-iff-2xx] result == nil <==> (httpDoCalls == old(httpDoCalls) + 1 && !httpDoFailed && lastHTTPResp != nil && 200 <= lastHTTPResp.StatusCode && lastHTTPResp.StatusCode < 300)
+//@   ensures[at-most-one-request] httpDoCalls <= old(httpDoCalls) + 1
+//@   modifies httpDoCalls, httpDoFailed, lastHTTPResp
+
+//@ func (p *GetPublisher) Publish(addr string, msg []byte) error
+//@   props C20
+//@   requires[client-initialised] httpclient != nil
+//@   ensures[nil-iff-200] result == nil <==> (httpDoCalls == old(httpDoCalls) + 1 && !httpDoFailed && lastHTTPResp != nil && lastHTTPResp.StatusCode == 200)
+//@   ensures[at-most-one-request] httpDoCalls <= old(httpDoCalls) + 1
+//@   modifies httpDoCalls, httpDoFailed, lastHTTPResp
